@@ -94,7 +94,7 @@ inline Query genQuery(const Shape& s, int region, int sub, vh::Rng& r, const Vec
 
 inline double nearTol(const Shape& s) {
     // relative tolerance of on-surface / optimality checks, from the error model of the shipped algorithm
-    return s.kind == ELLIPSOID ? 1e-7 : 1e-11;
+    return s.kind == ELLIPSOID ? 1e-10 : 1e-11;
 }
 
 // ------------------------------------------------------------------ findNearestPoint
@@ -106,6 +106,8 @@ inline void nearestChecks(vh::Ctx& c, const Shape& s, vh::Rng& r, long idx, int 
         if (s.kind == HEIGHTMAP && region == 4) region = 0;
         Query Q = genQuery(s, region, (int)(idx / NKIND / 6 + q), r, focus, L);
         const std::string cell = sh + ":" + Q.region;
+        // ellipsoids with repeated radii: one root cause (multiple roots of the distance polynomial) whatever the region
+        if (s.kind == ELLIPSOID && sh != "ellipsoid") Q.region = Q.region.compare(0, 10, "degenerate") == 0 ? "degenerate" : "regular";
         c.setPhase("findNearestPoint " + cell);
         const double sc = s.size + Q.x.norm();
         auto W = [&](const Vec3& p, const std::string& note) {
